@@ -90,8 +90,12 @@ theorem errs_extractAtomic (bl : Nat) (bt : BaseType) (enc : Option Enc) (hl : B
   unfold extractAtomic
   repeat (first | exact errs_extractCore _ _ _ _ | split | errs_step)
 
+theorem errs_unapplyMask {σ : Type} (m : Nat) (c : Bool) (v : IVal) : ErrsIn DecErr (unapplyMask m c v : OdxM σ IVal) := by
+  unfold unapplyMask
+  cases v <;> simp only [] <;> repeat (first | split | errs_step)
+
 macro "errs1" : tactic => `(tactic| first
-    | exact errs_extractAtomic _ _ _ _ | split | errs_step | dsimp only
+    | exact errs_extractAtomic _ _ _ _ | exact errs_unapplyMask _ _ _ | split | errs_step | dsimp only
     | (simp only [Nat.succ_eq_add_one, Nat.add_right_cancel_iff] at *; subst_vars))
 macro "errs" : tactic => `(tactic| repeat errs1)
 
